@@ -258,6 +258,26 @@ b('tail-filter-named-diff', ['C09', 'C06'], 'src/terminal.go', "\t\t\t\tif k-min
 b('equal-score-two-steps', ['C03', 'C05'], 'src/algo/algo.go', "\t\tscore, _ := calculateScore(caseSensitive, normalize, text, pattern, trimmedLen, trimmedLen+lenPattern, false)\n\t\treturn Result{trimmedLen, trimmedLen + lenPattern, score}, nil", "\t\teidx := trimmedLen + lenPattern\n\t\tscore, _ := calculateScore(caseSensitive, normalize, text, pattern, trimmedLen, eidx, false)\n\t\treturn Result{trimmedLen, eidx, score}, nil")
 b('proxy-done-named', ['C07', 'C14'], 'src/proxy.go', "\t<-outputDone\n\treturn ExitOk, nil", "\t_, _ = <-outputDone\n\treturn ExitOk, nil")
 
+# ---- behaviour-preserving edits for the second batch of round-7 rules
+b('bonus-threshold-geq', ['C03', 'C05'], 'src/algo/algo.go', "func bonusFor(prevClass charClass, class charClass) int16 {\n\tif class > charNonWord {", "func bonusFor(prevClass charClass, class charClass) int16 {\n\tif class >= charDelimiter {")
+b('or-group-flag-first', ['C01'], 'src/pattern.go', "\t\t\t\toffset, currentScore = off, score\n\t\t\t\tmatched = true\n\t\t\t\tif withPos {", "\t\t\t\tmatched = true\n\t\t\t\toffset, currentScore = off, score\n\t\t\t\tif withPos {")
+b('merger-get-flipped-compare', ['C04', 'C13'], 'src/merger.go', "\t\tif firstChunk.count < chunkSize && idx >= firstChunk.count {", "\t\tif firstChunk.count < chunkSize && firstChunk.count <= idx {")
+b('findindex-mirror-order', ['C09'], 'src/merger.go', "\t\tindex = int(itemIndex - mg.minIndex)\n\t\tif mg.tac {\n\t\t\tindex = mg.count - index - 1\n\t\t}", "\t\tindex = int(itemIndex - mg.minIndex)\n\t\tif mg.tac {\n\t\t\tindex = mg.count - 1 - index\n\t\t}")
+b('isempty-neq-zero', ['C08'], 'src/pattern.go', "\tif len(p.denylist) > 0 {\n\t\treturn false\n\t}\n\tif !p.extended {", "\tif len(p.denylist) != 0 {\n\t\treturn false\n\t}\n\tif !p.extended {")
+b('output-branches-swapped', ['C07', 'C09'], 'src/terminal.go', "\tfound := len(t.selected) > 0\n\tif !found {\n\t\tcurrent := t.currentItem()\n\t\tif current != nil {\n\t\t\tt.printer(transform(current))\n\t\t\tfound = true\n\t\t}\n\t} else {\n\t\tfor _, sel := range t.sortSelected() {\n\t\t\tt.printer(transform(sel.item))\n\t\t}\n\t}\n\treturn found", "\tfound := len(t.selected) > 0\n\tif found {\n\t\tfor _, sel := range t.sortSelected() {\n\t\t\tt.printer(transform(sel.item))\n\t\t}\n\t} else {\n\t\tcurrent := t.currentItem()\n\t\tif current != nil {\n\t\t\tt.printer(transform(current))\n\t\t\tfound = true\n\t\t}\n\t}\n\treturn found")
+b('walker-empty-command-string-compare', ['C19'], 'src/reader.go', "\t\tcmd := os.Getenv(\"FZF_DEFAULT_COMMAND\")\n\t\tif len(cmd) == 0 {", "\t\tcmd := os.Getenv(\"FZF_DEFAULT_COMMAND\")\n\t\tif cmd == \"\" {")
+b('pluslist-neq-zero', ['C20', 'C12'], 'src/terminal.go', "(forcePlus || plus) && len(t.selected) > 0) {", "(forcePlus || plus) && len(t.selected) != 0) {")
+b('header-height-test-flipped', ['C15'], 'src/terminal.go', "t.headerWindow != nil && primaryHeaderLines != t.headerWindow.Height()) ||", "t.headerWindow != nil && t.headerWindow.Height() != primaryHeaderLines) ||")
+b('normalize-range-order', ['C01', 'C02'], 'src/algo/normalize.go', "\t\tif r < 0x00C0 || r > 0x2184 {\n\t\t\tcontinue\n\t\t}", "\t\tif r > 0x2184 || r < 0x00C0 {\n\t\t\tcontinue\n\t\t}")
+b('marker-break-geq', ['C17'], 'src/options.go', "\t\tif idx == 3 {\n\t\t\tbreak\n\t\t}", "\t\tif idx >= 3 {\n\t\t\tbreak\n\t\t}")
+b('rubout-named-killed', ['C09'], 'src/terminal.go', "\tt.yanked = copySlice(t.input[t.cx:pcx])\n\tt.input = append(t.input[:t.cx], after...)", "\tkilled := copySlice(t.input[t.cx:pcx])\n\tt.yanked = killed\n\tt.input = append(t.input[:t.cx], after...)")
+b('keymatch-operands-swapped', ['C07'], 'src/terminal.go', "\treturn event.Type == key.Type && event.Char == key.Char ||", "\treturn key.Type == event.Type && key.Char == event.Char ||")
+b('history-write-via-create', ['C18'], 'src/history.go', "\treturn os.WriteFile(h.path, []byte(strings.Join(h.lines, \"\\n\")), 0600)", "\tdata := []byte(strings.Join(h.lines, \"\\n\"))\n\treturn os.WriteFile(h.path, data, 0600)")
+v('c10r7-placeholder-trimright', 'C10', 'C10-R7', 'src/terminal.go', "\t\t\t\t\tstr = strings.TrimSuffix(str, *params.delimiter.str)", "\t\t\t\t\tstr = strings.TrimRight(str, *params.delimiter.str)")
+v('c14r13-next-selected-no-guard', 'C14', 'C14-R13', 'src/terminal.go', "\t\t\t\t\tfor i := 1; i < total; i++ {\n\t\t\t\t\t\ty := (t.cy + i) % total", "\t\t\t\t\tfor i := 1; i <= total; i++ {\n\t\t\t\t\t\ty := (t.cy + i) % total")
+v('c18r10-openfile-no-trunc', 'C18', 'C18-R10', 'src/history.go', "\treturn os.WriteFile(h.path, []byte(strings.Join(h.lines, \"\\n\")), 0600)", "\tf, err := os.OpenFile(h.path, os.O_WRONLY|os.O_CREATE, 0600)\n\tif err != nil {\n\t\treturn err\n\t}\n\tdefer f.Close()\n\t_, err = f.WriteString(strings.Join(h.lines, \"\\n\"))\n\treturn err")
+v('c05r13-pattern-scratch', 'C05', 'C05-R13', 'src/pattern.go', "\tif p.extended {\n\t\tif offsets, bonus, pos := p.extendedMatch(item, withPos, slab); len(offsets) == len(p.termSets) {", "\tp.cacheKey = p.cacheKey[:len(p.cacheKey)]\n\tif p.extended {\n\t\tif offsets, bonus, pos := p.extendedMatch(item, withPos, slab); len(offsets) == len(p.termSets) {")
+
 def build(entries, outdir, kind):
     """One persistent scratch worktree per worker (same path for every variant, so the Go build cache hits);
     removed at the end."""
